@@ -3,6 +3,7 @@ package props
 import (
 	"encoding/json"
 	"fmt"
+	"strconv"
 	"testing"
 
 	"pgregory.net/rapid"
@@ -118,6 +119,14 @@ func c03Check(t failer, test string, c *c03Case, ch bx.Chooser) (oa, ob ref.Set,
 }
 
 func init() {
+	replayers["TestC03_LongRuns"] = func(t *testing.T, raw json.RawMessage) {
+		var c EvalCase
+		if err := json.Unmarshal(raw, &c); err != nil {
+			t.Fatalf("bad case: %v", err)
+		}
+		want, got, _ := c01Check(t, "C03", "TestC03_LongRuns", &c)
+		t.Logf("replay ok: %s ref %s", got, want)
+	}
 	replayers["TestC03_Table"] = func(t *testing.T, raw json.RawMessage) {
 		var c c03Case
 		if err := json.Unmarshal(raw, &c); err != nil {
@@ -152,5 +161,124 @@ func TestC03_Table(t *testing.T) {
 		nt := oa == ref.E || ob == ref.E
 		r.Case(c.Debug+"\x00"+root.String(), nt, map[string]string{"A": bx.String(a), "B": bx.String(b), "C": bx.String(cx), "datum": root.String(),
 			"outcomes": oa.String() + ob.String()}, fmt.Sprintf("cell:A=%s,B=%s", oa, ob))
+	})
+}
+
+// TestC03_LongRuns: chains of 2..48 operands of known outcome (true / false / error) joined
+// by one operator or by and-runs under or; the composite must equal the left-to-right
+// short-circuit fold of the operands' outcomes - in particular an error after the deciding
+// operand is never reported and one before it always is, however long the chain.
+func TestC03_LongRuns(t *testing.T) {
+	r := rec(t, "C03", c03Rule)
+	strT := uni.Scalar(uni.KString)
+	root := &uni.Node{T: uni.MapOf(strT, uni.Iface()), Keys: []*uni.Node{uni.Str("a"), uni.Str("s"), uni.Str("l")},
+		Elems: []*uni.Node{uni.InIface(uni.Int(uni.KInt, 1)), uni.InIface(uni.Str("db-0")), uni.InIface(uni.List(uni.SliceOf(uni.Scalar(uni.KInt)), uni.Int(uni.KInt, 1)))}}
+	d := root.Interface()
+	operand := func(o byte, i int) bx.Expr {
+		switch o {
+		case 'T':
+			return []bx.Expr{&bx.Match{Sel: bx.Sel{Parts: []string{"a"}}, Op: bx.OpEq, Lit: "1"}, &bx.Match{Sel: bx.Sel{Parts: []string{"s"}}, Op: bx.OpNe, Lit: "web-" + strconv.Itoa(i)},
+				&bx.Match{Sel: bx.Sel{Parts: []string{"l"}}, Op: bx.OpIn, Lit: "1"}}[i%3]
+		case 'F':
+			return []bx.Expr{&bx.Match{Sel: bx.Sel{Parts: []string{"a"}}, Op: bx.OpEq, Lit: strconv.Itoa(i + 2)}, &bx.Match{Sel: bx.Sel{Parts: []string{"s"}}, Op: bx.OpEq, Lit: "web-" + strconv.Itoa(i)},
+				&bx.Match{Sel: bx.Sel{Parts: []string{"l"}}, Op: bx.OpEmpty}}[i%3]
+		}
+		return []bx.Expr{&bx.Match{Sel: bx.Sel{Parts: []string{"owner"}}, Op: bx.OpEq, Lit: "ops"}, &bx.Match{Sel: bx.Sel{Parts: []string{"l"}}, Op: bx.OpEq, Lit: "1"},
+			&bx.Match{Sel: bx.Sel{Parts: []string{"a", "b"}}, Op: bx.OpEmpty}}[i%3]
+	}
+	rapid.Check(t, func(t *rapid.T) {
+		n := rapid.IntRange(2, 48).Draw(t, "operands")
+		outs := make([]byte, n)
+		// mostly neutral operands with a few deciding / erroring ones, so that long runs are actually traversed
+		mode := rapid.IntRange(0, 2).Draw(t, "mode") // 0 or-chain, 1 and-chain, 2 and-runs under or
+		for i := range outs {
+			neutral := byte('F')
+			if mode == 1 {
+				neutral = 'T'
+			}
+			switch rapid.IntRange(0, 9).Draw(t, "o") {
+			case 0:
+				outs[i] = 'E'
+			case 1:
+				outs[i] = map[byte]byte{'F': 'T', 'T': 'F'}[neutral]
+			default:
+				outs[i] = neutral
+			}
+		}
+		// build right-nested tree and the expected fold
+		var groups [][]int
+		switch mode {
+		case 0:
+			for i := 0; i < n; i++ {
+				groups = append(groups, []int{i})
+			}
+		case 1:
+			g := []int{}
+			for i := 0; i < n; i++ {
+				g = append(g, i)
+			}
+			groups = [][]int{g}
+		default:
+			g := []int{}
+			for i := 0; i < n; i++ {
+				g = append(g, i)
+				if rapid.IntRange(0, 3).Draw(t, "split") == 0 {
+					groups = append(groups, g)
+					g = []int{}
+				}
+			}
+			if len(g) > 0 {
+				groups = append(groups, g)
+			}
+		}
+		toSet := map[byte]ref.Set{'T': ref.T, 'F': ref.F, 'E': ref.E}
+		var gExprs []bx.Expr
+		var gOuts []ref.Set
+		for _, g := range groups {
+			var e bx.Expr
+			out := ref.T
+			for k := len(g) - 1; k >= 0; k-- {
+				op := operand(outs[g[k]], g[k])
+				if e == nil {
+					e = op
+				} else {
+					e = &bx.And{L: op, R: e}
+				}
+			}
+			for _, idx := range g {
+				out = tblAnd(out, toSet[outs[idx]])
+				if out != ref.T {
+					break
+				}
+			}
+			gExprs, gOuts = append(gExprs, e), append(gOuts, out)
+		}
+		e := gExprs[len(gExprs)-1]
+		for i := len(gExprs) - 2; i >= 0; i-- {
+			e = &bx.Or{L: gExprs[i], R: e}
+		}
+		want := ref.F
+		for _, o := range gOuts {
+			want = tblOr(want, o)
+			if want != ref.F {
+				break
+			}
+		}
+		rend := bx.NewRenderer(chooser(t))
+		rend.MaxParen = 0
+		text, _ := rend.Render(e)
+		res := runImpl(text, d, Opts{})
+		c := newEvalCase(text, e, root, Opts{})
+		if res.CreateErr != nil {
+			t.Fatalf("harness: %q rejected: %v", text, res.CreateErr)
+		}
+		if res.Panic != nil || res.Outcome() != want {
+			violation(t, "C03", "TestC03_LongRuns", c, "operands with outcomes %s (mode %d): got %s, the left-to-right fold gives %s\n expr: %s", outs, mode, res, want, c.TextQ)
+		}
+		hasE := false
+		for _, o := range outs {
+			hasE = hasE || o == 'E'
+		}
+		r.Case(text, hasE, map[string]string{"outcomes": string(outs), "mode": strconv.Itoa(mode), "result": res.String()}, fmt.Sprintf("len:%d", n/8*8), "mode:"+strconv.Itoa(mode))
 	})
 }
